@@ -159,7 +159,8 @@ BUILTIN_CLASSES = [
     ('asyncio.InvalidStateError', ['Exception']),
     ('asyncio.TimeoutError', ['Exception']),
     ('UserException', ['Exception']),  # placeholder: any exception class defined by user code
-    ('UserObject', ['object']),  # placeholder: any object of a class unknown to the class table
+    ('UserObject', ['object']),
+    ('UserCallEvent', ['object']),  # ghost: one record per call into unknown (user) code  # placeholder: any object of a class unknown to the class table
     ('asyncio.Future', ['object']),
     ('kiwipy.Future', ['object']),
     ('kiwipy.CancelledError', ['BaseException']),
